@@ -1,10 +1,10 @@
 (* C08 — results are plain JSON in the documented simplified form, under every option.
    Only statements here; proofs are in Proofs/. *)
-From Coq Require Import List String.
+From Coq Require Import List String ZArith.
 Import ListNotations.
 Open Scope string_scope.
 Open Scope list_scope.
-From MoSql Require Import Base.Json Model.Scrub Proofs.Slots Proofs.Simplified.
+From MoSql Require Import Base.Json Model.Scrub Proofs.Slots Proofs.Simplified Proofs.Calls.
 
 (* every raw tree, every callback, every rename map, every plain null value: no internal object survives *)
 Theorem C08_plain_json : forall m fm x r v,
@@ -24,3 +24,11 @@ Proof. exact result_simplified_normal. Qed.
 (* the side condition is decidable; the harness evaluates it on every captured raw result *)
 Theorem C08_good_decidable : forall m fm r, goodb m fm r = true -> good m fm r.
 Proof. exact goodb_good. Qed.
+
+(* non-vacuity: the raw result of  select f(a, NULL) over NULL from t  (a call with a NULL argument and a NULL keyword argument) meets the premises *)
+Example C08_premise_satisfiable :
+  let r0 := RPR true [("select", [RPR true [("value", [RCall "f" (RList [RStr "a"; RMark]) [("over", RMark)]])] []]); ("from", [RStr "t"])] [] in
+  goodb MSimple [] r0 = true /\ goodb MNormal [("f", "g")] r0 = true /\ nofakeb [] r0 = true /\ nofakeb_n [("f", "g")] r0 = true /\
+  parse_result MSimple [] (JInt 7%Z) r0
+    = Some (JDict [("select", JDict [("value", JDict [("over", JInt 7%Z); ("f", JList [JStr "a"; JInt 7%Z])])]); ("from", JStr "t")]).
+Proof. vm_compute. repeat split; reflexivity. Qed.
